@@ -293,34 +293,46 @@ Definition uncled_delta_entropy (h : header) : Z :=
 (* ------------------------------------------------------------------------------------------ *)
 (** * 7. verifyHeader, zone context: the modelled subset of rules                              *)
 
+Record pt_info := mkPT {
+  pt_found : bool;           (* GetBlockByHash(primeTerminusHash) != nil *)
+  pt_genesis00 : bool;       (* IsGenesisHash(primeTerminusHash) && NodeLocation == {0,0} *)
+  pt_expansion : Z; pt_threshold : Z;      (* primeTerminus.ExpansionNumber() / ThresholdCount() *)
+  ppt_found : bool; ppt_expansion : Z      (* fetchPrimeBlock(primeTerminus.ParentHash(PRIME)) *)
+}.
+
 Record env := mkEnv {
   e_now : Z;                 (* unixNow *)
   e_dl : Z; e_mind : Z; e_gas_ceil : Z;    (* powConfig.DurationLimit / MinDifficulty / GasCeil *)
   e_gp : gp_info;            (* the parent's parent as CalcDifficulty sees it *)
   e_gcase : genesis_case;    (* only used when the parent is a genesis block *)
-  e_pt_found : bool;         (* ComputeExpansionNumber: the resolved prime terminus is in the database *)
-  e_pt_genesis00 : bool;     (* IsGenesisHash(primeTerminusHash) && NodeLocation == {0,0} *)
-  e_pt_expansion : Z; e_pt_threshold : Z;  (* primeTerminus.ExpansionNumber() / ThresholdCount() *)
-  e_ppt_found : bool; e_ppt_expansion : Z; (* fetchPrimeBlock(primeTerminus.ParentHash(PRIME)) *)
+  e_pt_self : pt_info;       (* database view when the prime terminus is the parent itself (prime-order parent) *)
+  e_pt_ref : pt_info;        (* database view of parent.PrimeTerminusHash() *)
   e_er_pt : Z                (* ExchangeRate of GetBlockByHash(parent.PrimeTerminusHash()) *)
 }.
 
 Definition u8 (x : Z) : Z := x mod 256.
 
-(* ComputeExpansionNumber (after CalcOrder(parent) succeeded) *)
-Definition expected_expansion (e : env) : option Z :=
-  if negb (e_pt_found e) then None else
-  if e_pt_genesis00 e then Some (e_pt_expansion e) else
-  if e_pt_threshold e =? tree_expansion_trigger_window + tree_expansion_wait_count
-  then Some (u8 (e_pt_expansion e + 1)) else
-  if negb (e_ppt_found e) then None else Some (e_ppt_expansion e).
+Definition parent_order (p : header) : option Z :=
+  match calc_order p with CoOk _ o => Some o | _ => None end.
+Definition parent_is_prime (p : header) : bool :=
+  match parent_order p with Some o => o =? ctx_prime | None => false end.
+
+(* ComputeExpansionNumber(parent) *)
+Definition expansion_of (i : pt_info) : option Z :=
+  if negb (pt_found i) then None else
+  if pt_genesis00 i then Some (pt_expansion i) else
+  if pt_threshold i =? tree_expansion_trigger_window + tree_expansion_wait_count
+  then Some (u8 (pt_expansion i + 1)) else
+  if negb (ppt_found i) then None else Some (ppt_expansion i).
+Definition expected_expansion (e : env) (p : header) : option Z :=
+  match parent_order p with
+  | None => None
+  | Some o => expansion_of (if o =? ctx_prime then e_pt_self e else e_pt_ref e)
+  end.
 
 Definition expected_difficulty (e : env) (p : header) : option Z :=
   if h_genesis p then calc_difficulty_genesis (h_diff p) (e_gcase e)
   else calc_difficulty (e_dl e) (e_mind e) (h_diff p) (h_time p) (e_gp e).
-
-Definition parent_order (p : header) : option Z :=
-  match calc_order p with CoOk _ o => Some o | _ => None end.
 
 Definition expected_parent_entropy (p : header) : Z := total_entropy ctx_zone p.
 Definition expected_parent_delta (p : header) : Z :=
@@ -337,8 +349,6 @@ Definition expected_gas_limit (e : env) (p : header) : Z := calc_gas_limit (h_nu
 Definition expected_state_limit (p : header) : Z := calc_state_limit (h_num p) (h_state_limit p) state_ceil.
 Definition expected_base_fee (e : env) (p : header) : Z :=
   calc_base_fee (h_genesis p) (match e_gp e with GpGenesis => true | _ => false end) (e_er_pt e) (h_diff p) (h_num p).
-Definition parent_is_prime (p : header) : bool :=
-  match parent_order p with Some o => o =? ctx_prime | None => false end.
 Definition expected_pt_hash (p : header) : Z :=
   if parent_is_prime p then h_hash p else if h_genesis p then h_hash p else h_pt_hash p.
 Definition expected_pt_num (p : header) : Z :=
@@ -355,7 +365,7 @@ Definition rule_parent_order (p : header) : bool :=
 Definition rule_parent_entropy (p c : header) : bool := expected_parent_entropy p =? h_pe_z c.
 Definition rule_parent_delta (p c : header) : bool := expected_parent_delta p =? h_pd_z c.
 Definition rule_parent_uncled_delta (p c : header) : bool := expected_parent_uncled_delta p =? h_pud_z c.
-Definition rule_expansion (e : env) (c : header) : bool := opt_eqb (expected_expansion e) (h_expansion c).
+Definition rule_expansion (e : env) (p c : header) : bool := opt_eqb (expected_expansion e p) (h_expansion c).
 Definition rule_gas (e : env) (p c : header) : bool :=
   (h_gas_limit c <=? 2 ^ 63 - 1) && (h_gas_used c <=? h_gas_limit c) && (expected_gas_limit e p =? h_gas_limit c).
 Definition rule_state (p c : header) : bool :=
@@ -371,7 +381,7 @@ Definition rule_number (p c : header) : bool := h_num c =? expected_number p.
 Definition valid_child (e : env) (p c : header) : bool :=
   rule_time_future e c && rule_time_parent p c && rule_difficulty e p c && rule_parent_order p &&
   rule_parent_entropy p c && rule_parent_delta p c && rule_parent_uncled_delta p c &&
-  rule_expansion e c && rule_gas e p c && rule_state p c && rule_base_fee e p c && rule_pt p c &&
+  rule_expansion e p c && rule_gas e p c && rule_state p c && rule_base_fee e p c && rule_pt p c &&
   rule_number p c.
 
 (* ------------------------------------------------------------------------------------------ *)
@@ -466,7 +476,7 @@ Inductive case_body :=
 | COrder (h : header) (obs : co_result)               (* hc.CalcOrder, cold memo *)
 | CTotals (ctx : Z) (h : header) (obs_total obs_delta obs_udelta : Z)   (* Total/Delta/UncledDelta LogEntropy *)
 | CWsPost (n_uncles obs : Z)                          (* hc.WorkShareLogEntropy after the fork *)
-| CExpansion (e : env) (obs : option Z)               (* hc.ComputeExpansionNumber *)
+| CExpansion (e : env) (p : header) (obs : option Z)  (* hc.ComputeExpansionNumber *)
 | CVerify (e : env) (p c : header) (obs : bool)       (* hc.verifyHeader verdict (true = accepted) *)
 | CCache (ops : list cache_op) (obs : list (option co_result)).   (* history of CalcOrder calls / evictions *)
 
@@ -489,7 +499,7 @@ Definition body_ok (b : case_body) : bool :=
   | CTotals ctx h t d u =>
       (total_entropy ctx h =? t) && (delta_entropy ctx h =? d) && (uncled_delta_entropy h =? u)
   | CWsPost n obs => ws_entropy_postfork n =? obs
-  | CExpansion e obs => oz_eqb (expected_expansion e) obs
+  | CExpansion e p obs => oz_eqb (expected_expansion e p) obs
   | CVerify e p c obs => Bool.eqb (valid_child e p c) obs
   | CCache ops obs => ocos_eqb (cache_run [] ops) obs
   end.
